@@ -241,4 +241,173 @@ theorem add_agrees (alloc : Alloc) (a : Al) (data : Elem) (hlen : a.length ≤ S
             · cases h
     · cases h
 
+
+theorem writeSlot_length (a : Al) (i : Nat) (e : Elem) (s : String) (a' : Al) (h : writeSlot a i e s = .ok a') :
+    a'.length = a.length ∧ a'.size = a.size := by
+  unfold writeSlot at h; split at h <;> cases h; exact ⟨rfl, rfl⟩
+
+/-- what `putIdx` does after a successful expansion, as far as return value and length go -/
+theorem putIdx_tail (a1 : Al) (idx : Nat) (data : Elem) (r : Res)
+    (h : (do
+      let rel ←
+        if idx < a1.length then do
+          let e ← readSlot a1 idx "put_idx: arr->array[idx]"
+          pure (releaseOf e)
+        else pure []
+      let a ← writeSlot a1 idx data "put_idx: arr->array[idx] = data"
+      let a ←
+        if idx > a.length then do
+          let d ← ckSub idx a.length "put_idx: idx - arr->length"
+          let _ ← ckSize (d * PTR) "put_idx: (idx - arr->length) * sizeof(void *)"
+          let s ← memsetNull a.slots a.length d "put_idx: gap"
+          pure { a with slots := s }
+        else pure a
+      if a.length ≤ idx then do
+        let len ← ckSize (idx + 1) "put_idx: arr->length = idx + 1"
+        Outcome.ok (⟨{ a with length := len }, 0, none, none, rel⟩ : Res)
+      else Outcome.ok ⟨a, 0, none, none, rel⟩) = Outcome.ok r) :
+    r.ret = 0 ∧ r.al.length = (if a1.length ≤ idx then idx + 1 else a1.length) := by
+  simp only [] at h
+  have tail : ∀ (rel : List Arraylist.Id), (do
+        let a ← writeSlot a1 idx data "put_idx: arr->array[idx] = data"
+        if idx > a.length then do
+            let d ← ckSub idx a.length "put_idx: idx - arr->length"
+            let _ ← ckSize (d * PTR) "put_idx: (idx - arr->length) * sizeof(void *)"
+            let s ← memsetNull a.slots a.length d "put_idx: gap"
+            let a ← pure { slots := s, length := a.length, size := a.size }
+            (if a.length ≤ idx then do
+              let len ← ckSize (idx + 1) "put_idx: arr->length = idx + 1"
+              Outcome.ok (⟨{ slots := a.slots, length := len, size := a.size }, 0, none, none, rel⟩ : Res)
+            else Outcome.ok ⟨a, 0, none, none, rel⟩)
+          else do
+            let a ← pure a
+            (if a.length ≤ idx then do
+              let len ← ckSize (idx + 1) "put_idx: arr->length = idx + 1"
+              Outcome.ok (⟨{ slots := a.slots, length := len, size := a.size }, 0, none, none, rel⟩ : Res)
+            else Outcome.ok ⟨a, 0, none, none, rel⟩)) = Outcome.ok r →
+      r.ret = 0 ∧ r.al.length = (if a1.length ≤ idx then idx + 1 else a1.length) := by
+    intro rel h
+    cases hw : writeSlot a1 idx data "put_idx: arr->array[idx] = data" with
+    | fault w => rw [hw] at h; cases h
+    | ok a2 =>
+      rw [hw] at h
+      have ⟨hl2, _⟩ := writeSlot_length _ _ _ _ _ hw
+      simp only [Outcome.bind_ok] at h
+      by_cases hgt : idx > a2.length
+      · rw [if_pos hgt] at h
+        simp only [ckSub, ckSize_bind] at h
+        rw [if_pos (by omega)] at h
+        simp only [Outcome.bind_ok] at h
+        split at h
+        · cases hm : memsetNull a2.slots a2.length (idx - a2.length) "put_idx: gap" with
+          | fault w => rw [hm] at h; cases h
+          | ok sl =>
+            rw [hm] at h
+            simp only [Outcome.bind_ok, Outcome.pure_eq] at h
+            rw [if_pos (by omega)] at h
+            split at h
+            · cases h; refine ⟨rfl, ?_⟩; dsimp only; split <;> omega
+            · cases h
+        · cases h
+      · rw [if_neg hgt] at h
+        simp only [Outcome.bind_ok, Outcome.pure_eq, ckSize_bind] at h
+        by_cases hle : a2.length ≤ idx
+        · rw [if_pos hle] at h
+          split at h
+          · cases h; refine ⟨rfl, ?_⟩; dsimp only; split <;> omega
+          · cases h
+        · rw [if_neg hle] at h
+          cases h; refine ⟨rfl, ?_⟩; dsimp only; split <;> omega
+  by_cases h1 : idx < a1.length
+  · rw [if_pos h1] at h
+    cases hr : readSlot a1 idx "put_idx: arr->array[idx]" with
+    | fault w => rw [hr] at h; cases h
+    | ok e =>
+      rw [hr] at h
+      simp only [Outcome.bind_ok, Outcome.pure_eq] at h
+      exact tail _ h
+  · rw [if_neg h1] at h
+    simp only [Outcome.bind_ok, Outcome.pure_eq] at h
+    exact tail _ h
+
+/-- the shape of `putIdx`: refused by the guard; or expansion failed; or the tail ran -/
+theorem putIdx_shape (alloc : Alloc) (a : Al) (idx : Nat) (data : Elem) (r : Res) (h : putIdx alloc a idx data = .ok r) :
+    (idx > SIZE_T_MAX - 1 ∧ r.ret = -1 ∧ r.al = a) ∨
+    (idx ≤ SIZE_T_MAX - 1 ∧ ∃ a1 rc, expandInternal alloc a (idx + 1) = .ok (a1, rc) ∧
+      ((rc ≠ 0 ∧ r.ret = -1 ∧ r.al = a1) ∨
+       (rc = 0 ∧ r.ret = 0 ∧ r.al.length = (if a1.length ≤ idx then idx + 1 else a1.length)))) := by
+  unfold putIdx at h
+  have hg1 : alPutGuard = 1 := rfl
+  have hn1 : alPutNeed = 1 := rfl
+  rw [hg1, hn1] at h
+  by_cases hg : idx > SIZE_T_MAX - 1
+  · rw [if_pos hg] at h
+    cases h
+    exact Or.inl ⟨hg, rfl, rfl⟩
+  · rw [if_neg hg] at h
+    have hck : ckSize (idx + 1) "put_idx: idx + 1" = .ok (idx + 1) := by
+      have hmx : SIZE_T_MAX = 18446744073709551615 := rfl
+      unfold ckSize; rw [if_pos (by rw [hmx] at hg ⊢; omega)]
+    rw [hck] at h
+    simp only [Outcome.bind_ok] at h
+    cases hx : expandInternal alloc a (idx + 1) with
+    | fault w => rw [hx] at h; cases h
+    | ok e =>
+      rw [hx] at h
+      obtain ⟨a1, rc⟩ := e
+      simp only [Outcome.bind_ok] at h
+      refine Or.inr ⟨by have hmx : SIZE_T_MAX = 18446744073709551615 := rfl; rw [hmx] at hg ⊢; omega, a1, rc, rfl, ?_⟩
+      by_cases hrc : rc ≠ 0
+      · rw [if_pos hrc] at h
+        cases h
+        exact Or.inl ⟨hrc, rfl, rfl⟩
+      · rw [if_neg hrc] at h
+        have ⟨h1, h2⟩ := putIdx_tail a1 idx data r h
+        exact Or.inr ⟨by simpa using hrc, h1, h2⟩
+
+/-- `array_list_put_idx`: return value and new length, whatever the overwritten slot holds (`m1`, `m2` are the two loads of
+it); `cx` is the answer of `array_list_expand_internal(arr, idx + 1)`, zero exactly when the model's expansion succeeds -/
+theorem putIdx_agrees (alloc : Alloc) (a : Al) (idx : Nat) (data : Elem) (hidx : idx ≤ SIZE_T_MAX) (hlen : a.length ≤ SIZE_T_MAX)
+    (hsz : a.size ≤ SIZE_T_MAX)
+    (arr dp ap ap' fp fp' cx cm m1 m2 : Int) (r : Res) (h : putIdx alloc a idx data = .ok r)
+    (hcx : cx ≠ 0 ↔ (r.ret = -1 ∧ idx ≤ SIZE_T_MAX - 1)) :
+    ∃ out, Translated.array_list_put_idx arr idx dp ap a.length fp ap' a.length fp' cx cm m1 m2 = .ok out ∧
+      out.ret = r.ret ∧ out.arr_length = r.al.length ∧ (r.ret = 0 ∨ r.ret = -1) ∧
+      (r.ret = 0 → ("store8", [ap' + (idx : Int) * 8, dp]) ∈ out.calls) := by
+  have hsh := putIdx_shape alloc a idx data r h
+  unfold Translated.array_list_put_idx Translated.array_list_put_idx.j2 Translated.array_list_put_idx.j1
+  simp only [SIZE_T_MAX, sizeMax] at hsh hidx hlen hsz hcx
+  rcases hsh with ⟨hg, hret, hal⟩ | ⟨hg, a1, rc, hx, hcase⟩
+  · rw [if_pos (by omega)]
+    exact ⟨_, rfl, by simp [hret], by simp [hal], by simp [hret], by simp [hret]⟩
+  · rw [if_neg (by omega)]
+    have hl := expandInternal_length alloc a _ (by simp only [SIZE_T_MAX, sizeMax]; omega) (by simp only [SIZE_T_MAX, sizeMax]; omega) (a1, rc) hx
+    simp only at hl
+    rcases hcase with ⟨hrc, hret, hal⟩ | ⟨hrc, hret, hlen'⟩
+    · have : cx ≠ 0 := hcx.mpr ⟨hret, by omega⟩
+      rw [if_pos this]
+      exact ⟨_, rfl, by simp [hret], by simp [hal, hl], by simp [hret], by simp [hret]⟩
+    · have hcx0 : ¬ cx ≠ 0 := fun hc => by have := (hcx.mp hc).1; omega
+      rw [if_neg hcx0]
+      rw [hl] at hlen'
+      have hm : (((idx : Int) + 1) % 18446744073709551616) = (idx : Int) + 1 := by omega
+      simp only [hm]
+      by_cases hlt : idx < a.length
+      · rw [if_pos (by omega)]
+        by_cases hz : m1 ≠ 0
+        · rw [if_pos hz, if_neg (by omega), if_neg (by omega)]
+          refine ⟨_, rfl, by simp [hret], ?_, by simp [hret], by intro _; simp⟩
+          simp only [hlen']; rw [if_neg (by omega)]
+        · rw [if_neg hz, if_neg (by omega), if_neg (by omega)]
+          refine ⟨_, rfl, by simp [hret], ?_, by simp [hret], by intro _; simp⟩
+          simp only [hlen']; rw [if_neg (by omega)]
+      · rw [if_neg (by omega)]
+        by_cases hgt : idx > a.length
+        · rw [if_pos (by omega), if_pos (by omega)]
+          refine ⟨_, rfl, by simp [hret], ?_, by simp [hret], by intro _; simp⟩
+          simp only [hlen']; rw [if_pos (by omega)]; push_cast; rfl
+        · rw [if_neg (by omega), if_pos (by omega)]
+          refine ⟨_, rfl, by simp [hret], ?_, by simp [hret], by intro _; simp⟩
+          simp only [hlen']; rw [if_pos (by omega)]; push_cast; rfl
+
 end JsonC.TranslatedAl
